@@ -69,6 +69,8 @@ type Env struct {
 	unknown  []*ServerConn
 	accepts  int
 	stopped  bool
+	paused   bool // the server application does not call Accept for the time being
+	gate     *sync.Cond
 	acceptWG sync.WaitGroup
 }
 
@@ -230,6 +232,10 @@ func Start(cfg Config, sn *simnet.StreamNet, pn *simnet.PacketNet) (*Env, error)
 func (e *Env) Stop() (clientStop, serverStop time.Duration) {
 	e.mu.Lock()
 	e.stopped = true
+	e.paused = false
+	if e.gate != nil {
+		e.gate.Broadcast()
+	}
 	e.mu.Unlock()
 	if e.Client != nil {
 		t := time.Now()
@@ -309,9 +315,27 @@ func (e *Env) chanFor(idx int) chan *ServerConn {
 	return ch
 }
 
+// PauseAccept makes the server application stop (or resume) taking new proxy
+// connections with Accept: a busy accept loop. Connections that clients open
+// meanwhile wait inside mieru. Stop resumes it so that the loop can end.
+func (e *Env) PauseAccept(on bool) {
+	e.mu.Lock()
+	if e.gate == nil {
+		e.gate = sync.NewCond(&e.mu)
+	}
+	e.paused = on
+	e.gate.Broadcast()
+	e.mu.Unlock()
+}
+
 func (e *Env) acceptLoop() {
 	defer e.acceptWG.Done()
 	for {
+		e.mu.Lock()
+		for e.paused && !e.stopped {
+			e.gate.Wait()
+		}
+		e.mu.Unlock()
 		conn, req, err := e.Server.Accept()
 		if err != nil {
 			if e.isStopped() || !e.Server.IsRunning() {
